@@ -1,6 +1,7 @@
 (* Generated-obligation file for C19: the constants of discovery.py read by the translator on this run
    are the ones the model and the theorems use. *)
 From Curies.model Require Import Str Discovery.
+From Curies.model Require Defaults.
 From Curies.gen Require Gen.
 Theorem GenObl_C19_default_delimiters : Gen.default_delimiters = Discovery.default_delimiters.
 Proof. reflexivity. Qed.
@@ -9,3 +10,7 @@ Print Assumptions GenObl_C19_default_delimiters.
 Theorem GenObl_C19_special_case : Gen.special_cases = [(Discovery.github, Discovery.issues)].
 Proof. reflexivity. Qed.
 Print Assumptions GenObl_C19_special_case.
+(* the documented defaults of the signatures C19 speaks about are the defaults in the working tree *)
+Theorem GenObl_C19_defaults : Defaults.defaults_hold Defaults.defaults_C19 Gen.defaults_C19 = true.
+Proof. vm_compute. reflexivity. Qed.
+Print Assumptions GenObl_C19_defaults.
